@@ -181,3 +181,28 @@ def geom_fun_shape(spec):
 
 def geom_kind(spec):
     return spec["kind"] if spec["kind"] != "mapped" else f"mapped({spec['base']['kind']},{spec['map']},imap={spec['imap']})"
+
+
+# ------------------------------------------------------------------ memory layouts of array arguments
+
+LAYOUTS = ["plain", "plain", "fortran", "strided", "reversed", "readonly"]
+
+
+def relayout(arr, kind):
+    """the same numbers in another memory layout (Fortran order, a non-contiguous view, negative strides, read-only):
+    a caller may hand any of them to the library"""
+    a = np.array(arr, dtype=float)
+    if kind == "fortran":
+        return np.asfortranarray(a)
+    if kind == "strided":
+        big = np.zeros(tuple(2 * d for d in a.shape))
+        view = big[tuple(slice(None, None, 2) for _ in a.shape)]
+        view[...] = a
+        return view
+    if kind == "reversed":
+        rev = a[tuple(slice(None, None, -1) for _ in a.shape)].copy()
+        return rev[tuple(slice(None, None, -1) for _ in a.shape)]
+    if kind == "readonly":
+        a.flags.writeable = False
+        return a
+    return a
